@@ -1089,6 +1089,14 @@ impl World {
                             if props.is_empty() {
                                 props = vec!["C02", "C01"];
                             }
+                            // an admin operation (or an instantiation) that took effect although it must fail without one
+                            let f = op_features(op);
+                            if f.admin && !props.contains(&"C12") {
+                                props.push("C12");
+                            }
+                            if f.inst && !props.contains(&"C11") {
+                                props.push("C11");
+                            }
                             discs.push(Disc { props, sig: format!("succeeded-although-model-fails-with-{:?}", w).to_lowercase(), detail: short_op(op) });
                         }
                         (Err(e), Ok(_)) => {
@@ -1261,7 +1269,8 @@ pub fn op_features(op: &Top) -> OpFeatures {
                 f.admin = true;
                 in_script(script, f)
             }
-            Msg::UpdateAdmin { .. } | Msg::ClearAdmin { .. } => f.admin = true,
+            Msg::UpdateAdmin { .. } | Msg::ClearAdmin { .. } | Msg::Garbled { kind: 2, .. } => f.admin = true,
+            Msg::Garbled { kind: 1, .. } => f.inst = true,
             Msg::BankSend { .. } | Msg::BankBurn { .. } => f.bank = true,
             _ => {}
         }
